@@ -383,7 +383,9 @@ class MailboxSet(MailboxSetInterface[MailboxData]):
         async with self._set_lock.read_lock():
             mailboxes = [child for child in self._set.keys()
                          if self._subscribed.get(child)]
-        return ListTree(self.delimiter).update('INBOX', *mailboxes)
+            if self._subscribed.get('INBOX', True):
+                mailboxes.insert(0, 'INBOX')
+        return ListTree(self.delimiter).update(*mailboxes)
 
     async def list_mailboxes(self) -> ListTree:
         async with self._set_lock.read_lock():
